@@ -455,9 +455,16 @@ class CFGrid1D(CFGrid[CFGrid1DTopology]):
         return cast(numpy.ndarray, centres)
 
     @cached_property
-    def geometry(self) -> Polygon:
+    def geometry(self) -> BaseGeometry:
         # As CFGrid1D is axis aligned,
-        # the geometry can be constructed from the bounds.
+        # the geometry can be constructed from the bounds
+        # as long as the cells leave no gaps between them.
+        # Coordinate bounds given in the dataset need not be contiguous.
+        for bounds in (self.topology.longitude_bounds, self.topology.latitude_bounds):
+            lower = numpy.sort(bounds.values.min(axis=1))
+            upper = numpy.sort(bounds.values.max(axis=1))
+            if numpy.any(lower[1:] > upper[:-1]):
+                return super().geometry
         return box(*self.bounds)
 
 
